@@ -509,7 +509,44 @@ def t_rec2loop(fn):
     return new
 
 
-MODES = {"rec2loop": t_rec2loop, "renameparams": t_renameparams, "unternary": t_unternary, "inset": t_inset, "chaincmp": t_chaincmp, "retbool": t_retbool, "extracttail": t_extracttail, "inlinetmp": t_inlinetmp, "augexpand": t_augexpand, "elsify": t_elsify, "kwargify": t_kwargify, "rename": t_rename, "ifswap": t_ifswap, "cmpflip": t_cmpflip, "rettemp": t_rettemp}
+def t_unelse(fn):
+    """guard clauses: `if c: A (ends with return / raise) else: B` -> `if c: A` followed by B; elif ladders whose
+    arms all leave the function become a sequence of plain ifs"""
+    hit = [0]
+
+    def leaves(body):
+        if not body:
+            return False
+        last = body[-1]
+        if isinstance(last, (ast.Return, ast.Raise, ast.Continue, ast.Break)):
+            return True
+        if isinstance(last, ast.If) and last.orelse:
+            return leaves(last.body) and leaves(last.orelse)
+        return False
+
+    class R(ast.NodeTransformer):
+        def visit_If(self, n):
+            self.generic_visit(n)
+            if n.orelse and leaves(n.body):
+                hit[0] += 1
+                rest = n.orelse
+                n.orelse = []
+                return [n] + rest
+            return n
+
+        def visit_FunctionDef(self, n):
+            if n is fn_copy:
+                self.generic_visit(n)
+            return n
+
+        def visit_Lambda(self, n):
+            return n
+    fn_copy = copy.deepcopy(fn)
+    new = R().visit(fn_copy)
+    return new if hit[0] else None
+
+
+MODES = {"unelse": t_unelse, "rec2loop": t_rec2loop, "renameparams": t_renameparams, "unternary": t_unternary, "inset": t_inset, "chaincmp": t_chaincmp, "retbool": t_retbool, "extracttail": t_extracttail, "inlinetmp": t_inlinetmp, "augexpand": t_augexpand, "elsify": t_elsify, "kwargify": t_kwargify, "rename": t_rename, "ifswap": t_ifswap, "cmpflip": t_cmpflip, "rettemp": t_rettemp}
 
 
 def splice(src, fn, new):
